@@ -172,7 +172,7 @@ func checkC06(c *Ctx, r *Result, tier string) {
 				r.Discharged++
 				pk[1]++
 				r.Instance(rule, ob.Site, ob.Pos, "discharged", ob.Why, true)
-			case c06Reviewed[ob.Site] != "" && premiseFails[c06ReviewedPremise[ob.Site]] == "":
+			case c06Reviewed[ob.Site] != "" && premiseFails[c06ReviewedPremise[ob.Site]] == "" && c06LocalPremise(ob) == "":
 				r.Discharged++
 				pk[1]++
 				usedReviewed[ob.Site] = true
@@ -180,6 +180,11 @@ func checkC06(c *Ctx, r *Result, tier string) {
 			default:
 				if why := premiseFails[c06ReviewedPremise[ob.Site]]; why != "" {
 					ob.Why += " (the reviewed argument for this construct no longer applies: " + why + ")"
+				}
+				if c06Reviewed[ob.Site] != "" {
+					if why := c06LocalPremise(ob); why != "" {
+						ob.Why += " (the reviewed argument for this construct no longer applies: " + why + ")"
+					}
 				}
 				if dump {
 					fmt.Printf("OPEN\t%s\t%s\t%s\n", ob.Site, ob.Pos, ob.Why)
@@ -468,4 +473,41 @@ func c06Premises(c *Ctx, oc *obligCtx) map[string]string {
 		}
 	}
 	return out
+}
+
+// Local premises of reviewed entries: conditions at the construct itself that the argument names
+// ("under m != nil", "under err == nil"). They are facts of the path and are re-established on
+// every run; when one fails the entry is void at that site.
+var c06ReviewedLocal = map[string]string{
+	"interpreter.(*addeventandwait).Run$1#assert:proc.AddEventAndWait()#0.(*RootMonitor)#0": "operand-nonnil",
+	"interpreter.(*notinOpRuntime).Eval#assert:rt.inOpRuntime.Eval()#0.(bool)#0":            "error-nil",
+}
+
+func c06LocalPremise(ob Obligation) string {
+	kind := c06ReviewedLocal[ob.Site]
+	ta, ok := ob.Instr.(*ssa.TypeAssert)
+	if kind == "" || !ok {
+		return ""
+	}
+	f := FactsAt(ob.Instr)
+	switch kind {
+	case "operand-nonnil":
+		if !f.NonNil[accessPath(ta.X)] {
+			return "the asserted value is no longer known to be non-nil here (a nil interface panics in a single-result assertion): the guard `" + accessPath(ta.X) + " != nil` is gone"
+		}
+	case "error-nil":
+		// the asserted value is result 0 of a call; its error (result 1) must be known nil
+		if e, isE := unspill(ta.X).(*ssa.Extract); isE {
+			okNil := false
+			for _, ref := range *e.Tuple.Referrers() {
+				if e1, isE1 := ref.(*ssa.Extract); isE1 && e1.Index == 1 && f.IsNil[accessPath(e1)] {
+					okNil = true
+				}
+			}
+			if !okNil {
+				return "the error that comes with the asserted value is no longer known to be nil here"
+			}
+		}
+	}
+	return ""
 }
